@@ -125,11 +125,19 @@ def _e(value: int | float | str) -> float:
     return float(value)
 
 
+def _pow(x: float, y: float) -> float:
+    result = x**y
+    if isinstance(result, complex):
+        # negative base with a fractional exponent: the chip computes NaN, not a complex number
+        raise ValueError("pow() result is not a real number")
+    return result
+
+
 def get_unop_instruction(op: str):
     return {
         "-": ("sub", lambda x: -_e(x)),
         "~": ("neg", lambda x: ~_e(x)),
-        "not": ("seqz", lambda x: not _e(x)),
+        "not": ("seqz", lambda x: int(not _e(x))),  # seqz yields 0/1, not a Python bool
     }.get(op, (None, None))
 
 
@@ -141,7 +149,7 @@ def get_binop_instruction(op: str):
         "*": ("mul", lambda x, y: _e(x) * _e(y)),
         "/": ("div", lambda x, y: _e(x) / _e(y)),
         "%": ("mod", lambda x, y: _e(x) % _e(y)),
-        "**": ("pow", lambda x, y: _e(x) ** _e(y)),
+        "**": ("pow", lambda x, y: _pow(_e(x), _e(y))),
         # the chip's and/or are bitwise on the integer parts (like & above)
         "and": ("and", lambda x, y: int(_e(x)) & int(_e(y))),
         "or": ("or", lambda x, y: int(_e(x)) | int(_e(y))),
